@@ -427,12 +427,20 @@ def run_cases(ctx, prop, tier=None, count=None):
 # ------------------------------------------------------------------------------------------------
 # Coq terms
 # ------------------------------------------------------------------------------------------------
+def hexs(l):
+    return '(hx "%s")' % "".join("%02x" % x for x in l)
+
+
+def hexdiff(d):
+    return '(hxd "%s")' % "".join("%04x%02x" % (a, b) for a, b in d)
+
+
 def cstr(s):
     """a Coq string literal (bytes of the UTF-8 encoding)"""
     b = s.encode("utf-8")
     if all(32 <= x < 127 for x in b):
         return '"%s"' % s.replace('"', '""')
-    return "(bytes_string [%s])" % "; ".join(str(x) for x in b)
+    return "(bytes_string [%s]%%Z)" % "; ".join(str(x) for x in b)
 
 
 def cty(t):
@@ -444,7 +452,7 @@ def cty(t):
         return "(TOpaque %s %d %d)" % (cstr(t["n"]), t["s"], t["a"])
     if k == "ptr":
         return "(TPtr %s)" % cty(t["e"])
-    fs = "; ".join("(mkF %s %s %s %d, %s)" % (cstr(f["n"]), cstr(f["t"]), vlib.blit(f["a"]), f["o"], cty(f["ty"])) for f in t["f"])
+    fs = "; ".join("(mkF %s %s %s %d, %s)" % (cstr(f["n"]), cstr(f["t"]), vlib.blit(f["a"]), f["o"], cty(f["ty"])) for f in t.get("f", []))
     return "(TStruct %s %d [%s])" % (cstr(t["n"]), t["s"], fs)
 
 
@@ -470,24 +478,25 @@ def shape_name(sh):
     return "sh_" + h
 
 
-def shape_def(sh):
+def shape_def(sh, with_arena=True):
     offs = "; ".join("([%s]%%nat, %d, %d)" % ("; ".join(str(i) for i in o["path"]), o["off"], o["addr"]) for o in sh["offs"])
     listing_ = "None" if sh["listing_panic"] else "(Some %s)" % centries(sh["listing"])
     return "Definition %s : shape := mkShape %s%%nat [%s] %s %d%%nat %s.\n" % (
-        shape_name(sh), cty(sh["ty"]), offs, listing_, sh["base"], vlib.zlist(sh["before"]))
+        shape_name(sh), cty(sh["ty"]), offs, listing_, sh["base"], hexs(sh["before"]) if with_arena else "[]")
 
 
 class Prelude:
     """Collects the shapes the emitted cases refer to.  check.py computes every to_coq(case) before it
     reads mod.PRELUDE, so to_coq registers the shape and the module attribute is refreshed."""
-    def __init__(self, mod_globals):
+    def __init__(self, mod_globals, with_arena=True):
         self.g = mod_globals
+        self.with_arena = with_arena
         self.defs = {}
 
     def use(self, sh):
         n = shape_name(sh)
         if n not in self.defs:
-            self.defs[n] = shape_def(sh)
+            self.defs[n] = shape_def(sh, self.with_arena)
             self.g["PRELUDE"] = "Open Scope string_scope.\n" + "".join(self.defs.values())
         return n
 
